@@ -282,6 +282,13 @@ def fmt(ctx: Any) -> List[Ob]:
     R = 'C11.FORMAT'
     prog = ctx.prog
     obs: List[Ob] = []
+    # `carrying no cache-flush bits` (unicast reply) / `cache-flush bits exactly on the unique records` (multicast reply): the
+    # class writer sets the top bit iff the record is unique AND the message is a multicast one (table shared with C01.FLUSHBIT)
+    from .c01 import flushbit as _flushbit
+
+    for o in _flushbit.fn(ctx):
+        o.rule = R
+        obs.append(o)
     sites = []
     for f in prog.functions.values():
         for c in walk_local_ordered(f.node):
